@@ -137,5 +137,9 @@ Http401Fails(r) ==
                \cup (IF cl # 0 /\ num.digits > 0 /\ num.val = Len(r) - hb THEN {}
                      ELSE { "content-length-equals-body" }))
 
+TRANSFENC == << 116, 114, 97, 110, 115, 102, 101, 114, 45, 101, 110, 99, 111, 100, 105, 110, 103, 58 >>   \* "transfer-encoding:"
+(* a request (its header block q) that announces a body *)
+HttpAnnouncesBody(q) == HeaderLineWith(q, 0, Len(q), CONTLEN) # 0 \/ HeaderLineWith(q, 0, Len(q), TRANSFENC) # 0
+
 IsHttpResponse(r) == Len(r) >= 5 /\ SubSeq(r, 1, 5) = HTTPSLASH
 =============================================================================
